@@ -57,6 +57,59 @@ func (tk *TKAI) outcomesFrom(fn *ssa.Function, b *ssa.BasicBlock, cur KSet) []st
 	return out
 }
 
+// expandReturns: the event "return without consuming" replaced by what every caller of fn does after the call, with the
+// same current token (one level).
+func (tk *TKAI) expandReturns(fn *ssa.Function, events []string, cur KSet) []string {
+	ev := map[string]bool{}
+	expand := false
+	for _, e := range events {
+		if e == "return without consuming" {
+			expand = true
+			continue
+		}
+		ev[e] = true
+	}
+	if expand {
+		callers := tk.w.callersOf(fn)
+		if len(callers) == 0 {
+			ev["return without consuming"] = true
+		}
+		for _, site := range callers {
+			call, ok := site.(*ssa.Call)
+			if !ok || call.Parent() == nil || call.Parent().Blocks == nil {
+				ev["return without consuming"] = true
+				continue
+			}
+			cf := call.Parent()
+			ci := &ctxInfo{key: tkCtx{fn: cf, entry: "c11x", clean: true}, fn: cf, entry: kTop(), consts: map[int]string{}}
+			res, _ := tk.flowAfter(ci, call, newTState(cur))
+			if res == nil {
+				ev["return without consuming"] = true
+				continue
+			}
+			for in := range res.consumedAt {
+				ev["consume@"+tk.w.pos(in.Pos())+"#"+in.String()] = true
+			}
+			for _, rs := range res.ret {
+				if !rs.st.consumed {
+					ev["return without consuming (from "+funcName(cf)+")"] = true
+				}
+			}
+			for _, st := range res.rz {
+				if st != nil && !st.consumed {
+					ev["raise"] = true
+				}
+			}
+		}
+	}
+	var out []string
+	for e := range ev {
+		out = append(out, e)
+	}
+	sort.Strings(out)
+	return out
+}
+
 func ruleC11R1(w *World, r *Report) {
 	const rule = "C11/R1"
 	r.rule(rule, "every test of the current token against <eof> inside a production behaves the same for <eof> and for ';' up to the next consumption (same consumption sites and normal returns, or both raise)", 5)
@@ -111,6 +164,15 @@ func ruleC11R1(w *World, r *Report) {
 				return out
 			}
 			a, s := acc(atEOF), acc(atSemi)
+			if strings.Join(a, "|") != strings.Join(s, "|") {
+				// a list loop split off into a helper returns at <eof> where it goes on (and fails) at ';': what counts is
+				// what the callers do with the return — the same closing token is demanded either way
+				ae := acc(tk.expandReturns(fn, atEOF, kIn(eofAtom)))
+				se := acc(tk.expandReturns(fn, atSemi, kIn(";")))
+				if strings.Join(ae, "|") == strings.Join(se, "|") {
+					a, s = ae, se
+				}
+			}
 			if strings.Join(a, "|") == strings.Join(s, "|") {
 				r.ok(rule, construct, w.pos(condPos(iff)), fmt.Sprintf("same outcomes for <eof> and ';': %v", summariseEvents(atEOF)))
 			} else {
